@@ -527,13 +527,23 @@ fn c14_families(th: bool, single: &[Op], last_pos: &[Op]) -> Vec<(Family, usize)
       if pos == sc.len() {
         acts.push(Act::Sub(1));
       }
-      w_hot.push(World { srcs: vec![SrcKind::Hot], acts: acts.clone() });
-      // first one leaves before the second arrives
-      if pos > 0 {
-        let mut a2 = acts.clone();
-        let p = a2.iter().position(|a| *a == Act::Sub(1)).unwrap();
-        a2.insert(p, Act::Unsub(0));
-        w_hot.push(World { srcs: vec![SrcKind::Hot], acts: a2 });
+      // the same Observable value over the harness's hot source and over the crate's own subjects
+      for k in [SrcKind::Hot, SrcKind::Subject, SrcKind::BehaviorSubject, SrcKind::ReplaySubject] {
+        w_hot.push(World { srcs: vec![k.clone()], acts: acts.clone() });
+        // first one leaves before the second arrives
+        if pos > 0 {
+          let mut a2 = acts.clone();
+          let p = a2.iter().position(|a| *a == Act::Sub(1)).unwrap();
+          a2.insert(p, Act::Unsub(0));
+          w_hot.push(World { srcs: vec![k.clone()], acts: a2 });
+        }
+        // ... or right after the second arrived (the later subscription must be unaffected), and the other way round
+        let p = acts.iter().position(|a| *a == Act::Sub(1)).unwrap();
+        for leaving in [0usize, 1] {
+          let mut a3 = acts.clone();
+          a3.insert(p + 1, Act::Unsub(leaving));
+          w_hot.push(World { srcs: vec![k.clone()], acts: a3 });
+        }
       }
     }
   }
